@@ -1,9 +1,111 @@
 import BronVerif.Drive.Common
-/-! Driver handlers for C03. -/
+import BronVerif.Model.SignAlg
+/-! Driver handlers for C03 (key generation): every relation is evaluated in model curve arithmetic. -/
 namespace BronVerif.Drive.C03
-open BronVerif BronVerif.Drive
+open BronVerif BronVerif.Drive BronVerif.LinAlg BronVerif.SignAlg
 
-def handle (op : String) (_args : List String) (_rhs : String) : Verdict :=
-  .unsupported ("C03 op " ++ op)
+def splitBar (s : String) : List String := if s == "-" || s == "" then [] else s.splitOn "|"
+
+def parseMat {p : Nat} [NeZero p] (rows cols : Nat) (s : String) : Option (Mat (Fp p)) := do
+  let xs ← parseNatList? s
+  if xs.length ≠ rows * cols then none
+  if cols = 0 then return List.replicate rows []
+  return chunk (fpList xs) cols
+
+def parsePts (C : Curves.Params) (s : String) : Option (List (GPt C)) :=
+  (Curves.parseList? C s).map fun ps => ps.map fun p => (⟨p⟩ : GPt C)
+
+/-- `id:hex,hex` (id decimal) -/
+def parseShare {p : Nat} [NeZero p] (s : String) : Option (Nat × List (Fp p)) :=
+  match s.splitOn ":" with
+  | [ids, vs] => do
+    let id ← ids.toNat?
+    let xs ← parseNatList? vs
+    some (id, fpList xs)
+  | _ => none
+
+/-- share scalar of MSP row `k`: the position of `k` among the rows of its holder -/
+def shareOfRow {p : Nat} [NeZero p] (labels : List Nat) (shares : List (Nat × List (Fp p))) (k : Nat) : Fp p :=
+  match labels[k]? with
+  | none => 0
+  | some id =>
+    match shares.find? (fun sh => sh.1 == id) with
+    | none => 0
+    | some (_, vals) => vals.getD ((rowsOf labels id).idxOf k) 0
+
+def firstSome {α} (xs : List α) (f : α → Option Verdict) : Option Verdict :=
+  xs.foldl (fun acc x => match acc with | some v => some v | none => f x) none
+
+def handleDkg (C : Curves.Params) (rs cs labelsS ms dealersS dvvS partiesS pvS ppkS sharesS : String) : Verdict :=
+  withPrime C.n (.unsupported "n=0") fun q =>
+  match rs.toNat?, cs.toNat?, parseDecList? labelsS, parseDecList? dealersS, parseDecList? partiesS with
+  | some rows, some cols, some labels, some dealers, some parties =>
+    match parseMat (p := q) rows cols ms, (splitBar dvvS).mapM (parsePts C), (splitBar pvS).mapM (parsePts C),
+          parsePts C ppkS, (splitBar sharesS).mapM (parseShare (p := q)) with
+    | some M, some dvv, some pvs, some ppks, some shares =>
+      if labels.length ≠ rows then .unsupported "labels" else
+      if dvv.length ≠ dealers.length ∨ pvs.length ≠ parties.length ∨ ppks.length ≠ parties.length
+          ∨ shares.length ≠ parties.length then .unsupported "lengths" else
+      match pvs.head? with
+      | none => .unsupported "no parties"
+      | some V =>
+        let g := GPt.gen C
+        if V.length ≠ cols then .bad "dkg-vv-length" s!"V has {V.length} entries, MSP has {cols} columns" else
+        -- (a) V = Σ V⁽ⁱ⁾
+        let sumOk := dealers.isEmpty || decide (vvSum cols dvv = V) && dvv.all (fun v => v.length == cols)
+        if !sumOk then .bad "dkg-vv-sum" "final verification vector is not the sum of the dealers' broadcast vectors" else
+        -- (b) all parties report the same V and pk = V₀
+        if !(pvs.all fun v => decide (v = V)) then .bad "dkg-parties-disagree" "parties hold different verification vectors" else
+        if !(ppks.all fun pk => decide (some pk = V.head?)) then .bad "dkg-pk" "a party's public key is not V[0]" else
+        -- (c) lift(share_j) = M_j · V for every party
+        match firstSome (parties.zip shares) (fun (pid, sh) =>
+            if sh.1 ≠ pid then some (.bad "dkg-share-id" s!"share of party {pid} carries id {sh.1}")
+            else if shareLiftOk M labels V g pid sh.2 then none
+            else some (.bad "dkg-share-lift" s!"share of party {pid} does not lift to M_j·V")) with
+        | some v => v
+        | none => .ok
+    | _, _, _, _, _ => .unsupported "parse"
+  | _, _, _, _, _ => .unsupported "args"
+
+def parseSets (s : String) : Option (List (List Nat)) := (splitBar s).mapM parseDecList?
+
+def handleRecon (C : Curves.Params) (rs cs labelsS ms pkS sharesS qS uS : String) : Verdict :=
+  withPrime C.n (.unsupported "n=0") fun q =>
+  match rs.toNat?, cs.toNat?, parseDecList? labelsS, parseSets qS, parseSets uS with
+  | some rows, some cols, some labels, some qsets, some usets =>
+    match parseMat (p := q) rows cols ms, Curves.parse? C pkS, (splitBar sharesS).mapM (parseShare (p := q)) with
+    | some M, some pkp, some shares =>
+      if labels.length ≠ rows then .unsupported "labels" else
+      let g := GPt.gen C
+      let pk : GPt C := ⟨pkp⟩
+      let sor := shareOfRow labels shares
+      match firstSome qsets (fun S =>
+          match reconstruct M cols labels sor S with
+          | none => some (.bad "qualified-set-not-spanning" s!"e0 not in the span of the rows of {S}")
+          | some s => if decide (s • g = pk) then none
+                      else some (.bad "reconstruct-not-dlog-pk" s!"set {S} reconstructs {s.toHex}, whose lift is not pk")) with
+      | some v => v
+      | none =>
+        match firstSome usets (fun S =>
+            match reconCoeffs M cols (rowsOfSet labels S) with
+            | none => none
+            | some _ => some (.bad "unqualified-set-spans" s!"e0 is in the span of the rows of unqualified {S}")) with
+        | some v => v
+        | none => .ok
+    | _, _, _ => .unsupported "parse"
+  | _, _, _, _, _ => .unsupported "args"
+
+def handle (op : String) (args : List String) (rhs : String) : Verdict :=
+  if rhs != "ok" then .unsupported ("rhs " ++ rhs) else
+  match op, args with
+  | "dkg", [_proto, curve, _spec, rs, cs, labels, ms, dealers, dvv, parties, pvs, ppks, shares] =>
+    match Curves.byName? curve with
+    | none => .unsupported ("curve " ++ curve)
+    | some C => handleDkg C rs cs labels ms dealers dvv parties pvs ppks shares
+  | "recon", [curve, rs, cs, labels, ms, pk, shares, qs, us] =>
+    match Curves.byName? curve with
+    | none => .unsupported ("curve " ++ curve)
+    | some C => handleRecon C rs cs labels ms pk shares qs us
+  | _, _ => .unsupported ("C03 op " ++ op)
 
 end BronVerif.Drive.C03
